@@ -17,11 +17,18 @@
 //! else { b * d? };`) or in a statement `if` (`if c { y = e?; }`): `Option.bind (<Option-valued expression>) (fun z => rest)`.
 //! `return match ..`, struct-variant errors (`Error::InvalidLength { .. }`), `.ok()`, `.ok_or(E)`, `Ok(N(e?))` on the same
 //! error type, `*self.0.x_mut() = v` (record update).
+//! Trait plumbing: a target `Type@Trait<Args>` selects one trait impl (also for `&Type`); a method the impl inherits is taken from
+//! the trait's default body; `Self::Output` is resolved from the impl.  Source constants: `Fq::from_slice(&CONST).unwrap()` and
+//! `Fq::from_str("5").expect(..)` are `Fq.ofNat` of the constant (side condition `CONST < q` emitted as a theorem by gen_equiv.py).
+//! `fn random<R: Rng>(rng: &mut R)`: the generator is a script of `u64` draws threaded through the function; each
+//! `X::random(rng)` is hoisted in front of its statement in evaluation order (`let (rng, r0) := Sm9.X.randomS rng`).
+//! The operator macros of fields/utils.rs are translated by `ops.rs`.
 use std::collections::{BTreeMap, BTreeSet};
 use std::fmt::Write as _;
 use syn::*;
 
 mod limb;
+mod ops;
 
 type R<T> = std::result::Result<T, String>;
 
@@ -56,6 +63,9 @@ struct Ctx {
     ret_err: String,          // the error type named in the function's `Result<_, E>` return type (source spelling)
     tail_call: std::cell::Cell<bool>,                  // the expression being translated is the value of the enclosing function / closure
     top_last: std::cell::Cell<*const Stmt>,            // the last statement of the body of the function / closure being translated
+    assoc_out: String,        // trait impls: the Lean type of `Self::Output`
+    rng: String,              // `fn random<R: Rng>(rng: &mut R)`: the name of the generator parameter (a script of `u64` draws, threaded)
+    rng_ty: String,           // .. and of its type parameter
 }
 
 fn ty_name(t: &Type, cx: &Ctx) -> R<String> {
@@ -73,6 +83,11 @@ fn ty_name(t: &Type, cx: &Ctx) -> R<String> {
                 "AffineG1" if cx.lib => Ok("AffineG Fq".into()),
                 "AffineG2" if cx.lib => Ok("AffineG Fq2".into()),
                 "bool" => Ok("Bool".into()),
+                "str" => Ok("String".into()),
+                "FieldError" if cx.lib => Ok("FieldError".into()),
+                "U256" | "U512" => Err(format!("type {} (limb level: `U512::new` / `From<Fq> for U256` are covered by Gen/LimbEquiv.lean; this value-level wrapper is not translated)", name)),
+                "Output" if segs.len() == 2 && segs[0] == "Self" && !cx.assoc_out.is_empty() => Ok(cx.assoc_out.clone()),
+                n if !cx.rng_ty.is_empty() && segs.len() == 1 && n == cx.rng_ty => Ok("List Nat".into()),
                 "usize" | "u128" | "u64" | "u32" | "u8" => Ok("Nat".into()),
                 "Base" => cx.mono.clone().ok_or_else(|| "P::Base outside a monomorphised impl".to_string()),
                 "G" => Ok(format!("G {}", cx.mono.clone().ok_or("generic G without instantiation")?)),
@@ -137,7 +152,7 @@ fn is_group(cx: &Ctx, e: &Expr) -> bool {
         Expr::Path(p) => cx.group_vars.borrow().contains(&path_str(&p.path)),
         Expr::Field(f) if cx.lib && matches!(&f.member, Member::Unnamed(i) if i.index == 0) => is_group(cx, &f.base),
         Expr::Binary(b) => matches!(b.op, BinOp::Add(_) | BinOp::Sub(_) | BinOp::Mul(_)) && is_group(cx, &b.left),
-        Expr::Call(c) => matches!(&*c.func, Expr::Path(p) if { let s = path_str(&p.path); s == "G::zero" || s == "G::one" }),
+        Expr::Call(c) => matches!(&*c.func, Expr::Path(p) if { let s = path_str(&p.path); s == "G::zero" || s == "G::one" || s == "P::one" }),
         Expr::Struct(s) => path_str(&s.path) == "G",
         _ => false,
     }
@@ -453,6 +468,10 @@ fn lib_expr(cx: &Ctx, e: &Expr) -> R<Option<String>> {
     }))
 }
 
+fn uses_ident(t: &proc_macro2::TokenTree, name: &str) -> bool {
+    match t { proc_macro2::TokenTree::Ident(i) => i == name, proc_macro2::TokenTree::Group(g) => g.stream().into_iter().any(|x| uses_ident(&x, name)), _ => false }
+}
+
 /// translate a closure body with `?`-hoisting switched off (a `?` inside a closure belongs to the closure)
 fn in_closure<T>(cx: &Ctx, f: impl FnOnce() -> R<T>) -> R<T> {
     let s = cx.try_scope.replace(false);
@@ -466,6 +485,11 @@ fn expr(cx: &Ctx, e: &Expr) -> R<String> {
     if cx.try_scope.get() && has_try(e) {
         let cond = match e { Expr::If(_) | Expr::Block(_) | Expr::Match(_) | Expr::While(_) | Expr::ForLoop(_) | Expr::Loop(_) => true, Expr::Binary(b) => matches!(b.op, BinOp::And(_) | BinOp::Or(_)), _ => false };
         if cond { return Err("`?` under a conditional inside an expression".into()); }
+    }
+    // a draw from the generator under a conditional / closure cannot be hoisted in front of the statement
+    if !cx.rng.is_empty() {
+        let cond = match e { Expr::If(_) | Expr::Block(_) | Expr::Match(_) | Expr::While(_) | Expr::ForLoop(_) | Expr::Loop(_) | Expr::Closure(_) => true, Expr::Binary(b) => matches!(b.op, BinOp::And(_) | BinOp::Or(_)), _ => false };
+        if cond && quote::quote!(#e).into_iter().any(|t| uses_ident(&t, &cx.rng)) { return Err("use of the random generator under a conditional / closure".into()); }
     }
     if cx.lib { if let Some(s) = lib_expr(cx, e)? { return Ok(s); } }
     Ok(match e {
@@ -556,7 +580,7 @@ fn expr(cx: &Ctx, e: &Expr) -> R<String> {
             let xs: R<Vec<String>> = a.elems.iter().map(|x| expr(cx, x)).collect();
             format!("[{}]", xs?.join(", "))
         }
-        Expr::Lit(l) => match &l.lit { Lit::Int(i) => i.base10_digits().to_string(), Lit::Bool(b) => b.value.to_string(), _ => return Err("literal".into()) },
+        Expr::Lit(l) => match &l.lit { Lit::Int(i) => i.base10_digits().to_string(), Lit::Bool(b) => b.value.to_string(), Lit::Str(st) if st.value().chars().all(|c| c.is_ascii_alphanumeric() || c == ' ' || c == '_') => format!("\"{}\"", st.value()), _ => return Err("literal".into()) },
         Expr::Try(t) => {
             // `let x = e?;` is handled at statement level; a nested `?` is hoisted by `opt_expr`
             if cx.try_scope.get() && cx.ret_option && !cx.outcome {
@@ -610,6 +634,18 @@ fn call(cx: &Ctx, c: &ExprCall) -> R<String> {
             cx.binds.borrow_mut().push((v.clone(), format!("Sm9.G2Prepared.from_ {}", paren(&args[0]))));
             v
         }
+        ("P::one", 0) => format!("(Sm9.G.one : G {})", cx.mono.clone().ok_or("P::one outside a monomorphised impl")?),
+        ("Fq2::i", 0) => "Sm9.Fq2.i".into(),
+        // `X::random(rng)`: a draw from the script — the model function returns the remaining script and the element
+        ("Fq::random", 1) | ("Fr::random", 1) | ("Fq2::random", 1) | ("Fq4::random", 1) | ("Fq12::random", 1)
+            if !cx.rng.is_empty() && matches!(&c.args[0], Expr::Path(p) if path_str(&p.path) == cx.rng) => {
+            let k = cx.fresh.get(); cx.fresh.set(k + 1);
+            let v = format!("r{}", k);
+            let r = ident(&cx.rng);
+            cx.binds.borrow_mut().push((format!("({}, {})", r, v), format!("\u{2}Sm9.{}S {}", f2.replace("::", "."), r)));
+            v
+        }
+        (n, _) if n.starts_with("CurveError::") => return Err(format!("the model's CurveError has no variant for `{}` (it keeps only InvalidEncoding / NotMember)", n)),
         ("Fq::zero", 0) => "(0 : Fq)".into(),
         ("Fq::one", 0) => "(1 : Fq)".into(),
         ("Fq2::zero", 0) => "Sm9.Fq2.zero".into(),
@@ -642,6 +678,27 @@ fn method_call(cx: &Ctx, m: &ExprMethodCall) -> R<String> {
                     if let Expr::Unary(u) = &c.args[0] {
                         if let Expr::Path(cp) = &*u.expr {
                             return Ok(format!("(Sm9.Fq.ofNat Consts.{})", path_str(&cp.path)));
+                        }
+                    }
+                }
+                // `Fq::from_slice(&CONST).unwrap()` in groups.rs (`fields::Fq`: the strict 32-byte decoder) on a 32-byte source
+                // constant below q (Proofs/Consts.lean `consts_lt_q`): the element with that value
+                if path_str(&p.path) == "Fq::from_slice" && c.args.len() == 1 && !cx.lib {
+                    if let Expr::Reference(r) = &c.args[0] {
+                        if let Expr::Path(cp) = &*r.expr {
+                            let n = path_str(&cp.path);
+                            if cp.path.segments.len() == 1 && n.chars().all(|ch| ch.is_ascii_uppercase() || ch.is_ascii_digit() || ch == '_') {
+                                return Ok(format!("(Sm9.Fq.ofNat Consts.{})", n));
+                            }
+                        }
+                    }
+                }
+                // `Fq::from_str("5").expect(..)`: a decimal literal — `from_str` reduces modulo q and cannot fail on digits
+                if path_str(&p.path) == "Fq::from_str" && c.args.len() == 1 {
+                    if let Expr::Lit(ExprLit { lit: Lit::Str(st), .. }) = &c.args[0] {
+                        let d = st.value();
+                        if !d.is_empty() && d.len() <= 70 && d.chars().all(|ch| ch.is_ascii_digit()) {
+                            return Ok(format!("(Sm9.Fq.ofNat {})", d));
                         }
                     }
                 }
@@ -782,7 +839,9 @@ fn lhs_str(cx: &Ctx, e: &Expr) -> R<String> {
 /// emit pending Outcome binds in front of `line`
 fn flush(cx: &Ctx, pad: &str, out: &mut String) {
     for (v, e) in cx.binds.borrow_mut().drain(..) {
-        writeln!(out, "{}let {} ← {}", pad, v, e).unwrap();
+        // `\u{2}`: a pure (non-Outcome) hoisted binding — the draws of `fn random(rng)`
+        if let Some(pure) = e.strip_prefix('\u{2}') { writeln!(out, "{}let {} := {}", pad, v, pure).unwrap(); }
+        else { writeln!(out, "{}let {} ← {}", pad, v, e).unwrap(); }
     }
 }
 
@@ -842,6 +901,7 @@ fn block(cx: &Ctx, b: &Block, ind: usize, tail: Option<&str>) -> R<String> {
 
 fn wrap_result(cx: &Ctx, e: String) -> String {
     let e = if cx.mut_self { format!("(self, {})", e) } else { e };
+    let e = if !cx.rng.is_empty() { format!("({}, {})", ident(&cx.rng), e) } else { e };
     if cx.outcome { format!("pure {}", paren(&e)) } else { e }
 }
 
@@ -1345,6 +1405,24 @@ fn contains_unwrap(b: &Block) -> bool {
             None => break,
         }
     }
+    // likewise `Fq::from_slice(&CONST).unwrap()` and `Fq::from_str("digits").expect("..")`
+    loop {
+        match t.find("Fq::from_slice(&") {
+            Some(i) => { match t[i..].find(").unwrap()") { Some(j) if t[i + 16..i + j].chars().all(|c| c.is_ascii_uppercase() || c.is_ascii_digit() || c == '_') => t.replace_range(i..i + j + 10, "K"), _ => break } }
+            None => break,
+        }
+    }
+    loop {
+        match t.find("Fq::from_str(\"") {
+            Some(i) => {
+                let rest = &t[i + 14..];
+                let nd = rest.chars().take_while(|c| c.is_ascii_digit()).count();
+                if nd == 0 || !rest[nd..].starts_with("\").expect(\"") { break; }
+                match rest[nd + 11..].find("\")") { Some(j) => t.replace_range(i..i + 14 + nd + 11 + j + 2, "K"), None => break }
+            }
+            None => break,
+        }
+    }
     t.contains(".unwrap()") || t.contains(".expect(")
 }
 
@@ -1388,6 +1466,32 @@ const TARGETS: &[Target] = &[
     Target { file: "lib.rs", self_ty: "G2", lean_ns: "LibG2", mono: None, fns: &["x", "y", "z", "b", "set_x", "set_y", "set_z"] },
     Target { file: "lib.rs", self_ty: "Fr@Mul<G1>", lean_ns: "LibFrG1", mono: None, fns: &["mul"] },
     Target { file: "lib.rs", self_ty: "Fr@Mul<G2>", lean_ns: "LibFrG2", mono: None, fns: &["mul"] },
+    // groups.rs plumbing (reference / assign forms of `+`, constructors, accessors, Clone, affine Neg / PartialEq) and the two parameter sets
+    Target { file: "groups.rs", self_ty: "G", lean_ns: "G1", mono: Some("Fq"), fns: &["new", "x", "y", "z", "x_mut", "y_mut", "z_mut", "clone"] },
+    Target { file: "groups.rs", self_ty: "G", lean_ns: "G2", mono: Some("Fq2"), fns: &["new", "x", "y", "z", "x_mut", "y_mut", "z_mut", "clone"] },
+    Target { file: "groups.rs", self_ty: "G@GroupElement", lean_ns: "G1", mono: Some("Fq"), fns: &["one", "random"] },
+    Target { file: "groups.rs", self_ty: "G@GroupElement", lean_ns: "G2", mono: Some("Fq2"), fns: &["one", "random"] },
+    Target { file: "groups.rs", self_ty: "G@Add<&G<P>>", lean_ns: "G1AddValRef", mono: Some("Fq"), fns: &["add"] },
+    Target { file: "groups.rs", self_ty: "G@Add<&G<P>>", lean_ns: "G2AddValRef", mono: Some("Fq2"), fns: &["add"] },
+    Target { file: "groups.rs", self_ty: "&G@Add<G<P>>", lean_ns: "G1AddRefVal", mono: Some("Fq"), fns: &["add"] },
+    Target { file: "groups.rs", self_ty: "&G@Add<G<P>>", lean_ns: "G2AddRefVal", mono: Some("Fq2"), fns: &["add"] },
+    Target { file: "groups.rs", self_ty: "G@AddAssign<G<P>>", lean_ns: "G1AddAssignVal", mono: Some("Fq"), fns: &["add_assign"] },
+    Target { file: "groups.rs", self_ty: "G@AddAssign<G<P>>", lean_ns: "G2AddAssignVal", mono: Some("Fq2"), fns: &["add_assign"] },
+    Target { file: "groups.rs", self_ty: "G@AddAssign<&G<P>>", lean_ns: "G1AddAssignRef", mono: Some("Fq"), fns: &["add_assign"] },
+    Target { file: "groups.rs", self_ty: "G@AddAssign<&G<P>>", lean_ns: "G2AddAssignRef", mono: Some("Fq2"), fns: &["add_assign"] },
+    Target { file: "groups.rs", self_ty: "AffineG", lean_ns: "AffineG1", mono: Some("Fq"), fns: &["x", "y", "x_mut", "y_mut", "clone"] },
+    Target { file: "groups.rs", self_ty: "AffineG", lean_ns: "AffineG2", mono: Some("Fq2"), fns: &["x", "y", "x_mut", "y_mut", "clone"] },
+    Target { file: "groups.rs", self_ty: "AffineG@Neg", lean_ns: "AffineG1", mono: Some("Fq"), fns: &["neg"] },
+    Target { file: "groups.rs", self_ty: "AffineG@Neg", lean_ns: "AffineG2", mono: Some("Fq2"), fns: &["neg"] },
+    Target { file: "groups.rs", self_ty: "AffineG@PartialEq", lean_ns: "AffineG1", mono: Some("Fq"), fns: &["eq"] },
+    Target { file: "groups.rs", self_ty: "AffineG@PartialEq", lean_ns: "AffineG2", mono: Some("Fq2"), fns: &["eq"] },
+    Target { file: "groups.rs", self_ty: "G1Params@GroupParams", lean_ns: "G1Params", mono: Some("Fq"), fns: &["name", "one", "coeff_b", "check_order"] },
+    Target { file: "groups.rs", self_ty: "G2Params@GroupParams", lean_ns: "G2Params", mono: Some("Fq2"), fns: &["name", "one", "coeff_b", "check_order"] },
+    // leftovers: component-wise `random` (a script of draws is threaded), `to_u512` and the error conversion (reported as skipped)
+    Target { file: "fields/fq2.rs", self_ty: "Fq2", lean_ns: "Fq2", mono: None, fns: &["random", "to_u512"] },
+    Target { file: "fields/fq4.rs", self_ty: "Fq4", lean_ns: "Fq4", mono: None, fns: &["random"] },
+    Target { file: "fields/fq12.rs", self_ty: "Fq12", lean_ns: "Fq12", mono: None, fns: &["random"] },
+    Target { file: "lib.rs", self_ty: "CurveError@From<FieldError>", lean_ns: "LibCurveError", mono: None, fns: &["from"] },
 ];
 
 impl Target {
@@ -1398,7 +1502,14 @@ impl Target {
 }
 
 fn impl_self_name(im: &ItemImpl) -> Option<String> {
-    match &*im.self_ty { Type::Path(p) => p.path.segments.last().map(|s| s.ident.to_string()), Type::Array(a) => Some(quote::quote!(#a).to_string().replace(' ', "")), _ => None }
+    match &*im.self_ty { Type::Path(p) => p.path.segments.last().map(|s| s.ident.to_string()), Type::Array(a) => Some(quote::quote!(#a).to_string().replace(' ', "")),
+        Type::Reference(r) => match &*r.elem { Type::Path(p) => p.path.segments.last().map(|s| format!("&{}", s.ident)), _ => None }, _ => None }
+}
+
+/// `type Output = X;` of a trait impl
+fn impl_assoc_out(im: &ItemImpl) -> Option<Type> {
+    for ii in &im.items { if let ImplItem::Type(t) = ii { if t.ident == "Output" { return Some(t.ty.clone()); } } }
+    None
 }
 
 /// `type Error = X;` of a trait impl
@@ -1421,6 +1532,7 @@ fn main() {
         let text = match std::fs::read_to_string(&path) { Ok(s) => s.replace("\r\n", "\n"), Err(e) => { report.insert(format!("{}::<file>", t.file), format!("unreadable: {}", e)); continue; } };
         let file = match parse_file(&text) { Ok(f) => f, Err(e) => { report.insert(format!("{}::<file>", t.file), format!("parse error: {}", e)); continue; } };
         let mut found: BTreeSet<String> = BTreeSet::new();
+        let mut impl_traits: BTreeSet<String> = BTreeSet::new();      // traits the type implements in this file (for inherited default methods)
         for it in &file.items {
             if let (Item::Fn(f), "") = (it, t.ty()) {
                 let name = f.sig.ident.to_string();
@@ -1428,7 +1540,7 @@ fn main() {
                 let m = ImplItemFn { attrs: vec![], vis: f.vis.clone(), defaultness: None, sig: f.sig.clone(), block: (*f.block).clone() };
                 let key = format!("{}.{}", t.lean_ns, name);
                 if excluded.contains(&key) { report.insert(key, "skipped: the generated definition does not elaborate in Lean (ill-typed translation)".into()); continue; }
-                match translate_fn(t, &m, "") {
+                match translate_fn(t, &m, "", None) {
                     Ok((text, params, arms)) => { found.insert(name.clone()); defs.push_str(&text); defs.push('\n'); report.insert(key, "translated".into()); emitted.push((t.lean_ns.to_string(), name, params, arms)); }
                     Err(e) => { report.insert(key, format!("skipped: {}", e)); }
                 }
@@ -1439,12 +1551,13 @@ fn main() {
             if let Some(want) = t.tr() {
                 match &im.trait_ { Some((_, tr, _)) if quote::quote!(#tr).to_string().replace(' ', "") == want => {} _ => continue }
             }
+            if let Some((_, tr, _)) = &im.trait_ { if let Some(l) = tr.segments.last() { impl_traits.insert(l.ident.to_string()); } }
             for ii in &im.items {
                 let ImplItem::Fn(m) = ii else { continue };
                 let name = m.sig.ident.to_string();
                 if !t.fns.contains(&name.as_str()) { continue; }
                 // skip trait impls we do not want (e.g. `Mul for G` is wanted as `mul`, `Add<&G>` wrappers are not)
- if let (Some((_, tr, _)), true) = (&im.trait_, t.file != "lib.rs") {
+                if let (Some((_, tr, _)), true) = (&im.trait_, t.file != "lib.rs" && t.tr().is_none()) {
                     let trs = quote::quote!(#tr).to_string().replace(' ', "");
                     if (name == "add" && trs != "Add<G<P>>") || (name == "mul" && !trs.starts_with("Mul<Fr>")) || (name == "sub" && trs != "Sub<G<P>>") || (name == "neg" && trs != "Neg") || (name == "eq" && trs != "PartialEq") { continue; }
                     if name == "neg" && t.self_ty != "G" { continue; }
@@ -1452,7 +1565,25 @@ fn main() {
                 if found.contains(&name) { continue; }
                 let key = format!("{}.{}", t.lean_ns, name);
                 if excluded.contains(&key) { report.insert(key, "skipped: the generated definition does not elaborate in Lean (ill-typed translation)".into()); continue; }
-                match translate_fn(t, m, &impl_assoc_err(im)) {
+                match translate_fn(t, m, &impl_assoc_err(im), impl_assoc_out(im).as_ref()) {
+                    Ok((text, params, arms)) => { found.insert(name.clone()); defs.push_str(&text); defs.push('\n'); report.insert(key, "translated".into()); emitted.push((t.lean_ns.to_string(), name, params, arms)); }
+                    Err(e) => { report.insert(key, format!("skipped: {}", e)); }
+                }
+            }
+        }
+        // a trait method the impl does not define: the trait's default body (e.g. `GroupParams::check_order` for `G1Params`)
+        for it in &file.items {
+            let Item::Trait(tr) = it else { continue };
+            if !impl_traits.contains(&tr.ident.to_string()) { continue; }
+            for ti in &tr.items {
+                let TraitItem::Fn(tf) = ti else { continue };
+                let Some(body) = &tf.default else { continue };
+                let name = tf.sig.ident.to_string();
+                let key = format!("{}.{}", t.lean_ns, name);
+                if !t.fns.contains(&name.as_str()) || found.contains(&name) || report.contains_key(&key) { continue; }
+                if excluded.contains(&key) { report.insert(key, "skipped: the generated definition does not elaborate in Lean (ill-typed translation)".into()); continue; }
+                let m = ImplItemFn { attrs: vec![], vis: Visibility::Inherited, defaultness: None, sig: tf.sig.clone(), block: body.clone() };
+                match translate_fn(t, &m, "", None) {
                     Ok((text, params, arms)) => { found.insert(name.clone()); defs.push_str(&text); defs.push('\n'); report.insert(key, "translated".into()); emitted.push((t.lean_ns.to_string(), name, params, arms)); }
                     Err(e) => { report.insert(key, format!("skipped: {}", e)); }
                 }
@@ -1460,6 +1591,7 @@ fn main() {
         }
         for f in t.fns { let key = format!("{}.{}", t.lean_ns, f); report.entry(key).or_insert_with(|| "not found in source".into()); }
     }
+    ops::run(src, &mut defs, &mut report, &excluded);
     let header = "-- GENERATED by rs2lean from /repo/src on every run — do not edit.\nimport Sm9.Model.Api\nimport Sm9.Gen.Support\nset_option linter.unusedVariables false\nnamespace Sm9.Gen\nopen Sm9\n\n";
     let text = format!("{}{}\nend Sm9.Gen\n", header, defs);
     write_if_changed(&format!("{}/Rust.lean", out_dir), &text);
@@ -1479,10 +1611,18 @@ fn write_if_changed(path: &str, text: &str) {
     if std::fs::read_to_string(path).ok().as_deref() != Some(text) { std::fs::write(path, text).expect("write"); }
 }
 
-fn translate_fn(t0: &Target, m: &ImplItemFn, assoc_err: &str) -> R<(String, Vec<String>, bool)> {
+fn translate_fn(t0: &Target, m: &ImplItemFn, assoc_err: &str, assoc_out: Option<&Type>) -> R<(String, Vec<String>, bool)> {
     let name = m.sig.ident.to_string();
     let t = &Target { file: t0.file, self_ty: t0.ty(), lean_ns: t0.lean_ns, mono: t0.mono, fns: t0.fns };
-    let self_lean = match t.self_ty { "G" => format!("G {}", t.mono.unwrap()), "AffineG" => format!("AffineG {}", t.mono.unwrap()), "G2" => "G2".to_string(), o => o.to_string() };
+    // `fn random<R: Rng>(rng: &mut R)`: the generator is a script of `u64` draws threaded through the function
+    let rng_ty = m.sig.generics.params.iter().find_map(|g| match g { GenericParam::Type(tp) if tp.bounds.iter().any(|b| matches!(b, TypeParamBound::Trait(tb) if tb.path.is_ident("Rng"))) => Some(tp.ident.to_string()), _ => None }).unwrap_or_default();
+    let rng = if rng_ty.is_empty() { String::new() } else {
+        m.sig.inputs.iter().find_map(|a| match a { FnArg::Typed(p) => match (&*p.pat, &*p.ty) {
+            (Pat::Ident(pi), Type::Reference(r)) if r.mutability.is_some() && matches!(&*r.elem, Type::Path(tp) if tp.path.is_ident(&rng_ty)) => Some(pi.ident.to_string()), _ => None }, _ => None })
+            .ok_or("generic `Rng` parameter without a `&mut R` argument")?
+    };
+    if m.sig.generics.params.iter().any(|g| !matches!(g, GenericParam::Type(tp) if tp.ident == rng_ty.as_str())) { return Err("generic function".into()); }
+    let self_lean = match t.self_ty { "G" | "&G" => format!("G {}", t.mono.unwrap()), "AffineG" => format!("AffineG {}", t.mono.unwrap()), "G2" => "G2".to_string(), o => o.to_string() };
     let self_lean = if t.file == "lib.rs" && t.self_ty == "" { String::new() } else { self_lean };
     let self_lean = if t.file == "lib.rs" { match t.self_ty { "Gt" => "Fq12".to_string(), "AffineG1" => "AffineG Fq".to_string(), "AffineG2" => "AffineG Fq2".to_string(), o if o.starts_with("[u8;") => "List UInt8".to_string(), _ => self_lean } } else { self_lean };
     let ret_s = match &m.sig.output { ReturnType::Type(_, ty) => quote::quote!(#ty).to_string(), _ => String::new() };
@@ -1500,7 +1640,10 @@ fn translate_fn(t0: &Target, m: &ImplItemFn, assoc_err: &str) -> R<(String, Vec<
     let cx = Ctx { self_ty: self_lean.clone(), mono: t.mono.map(|s| s.to_string()), ret_option, outcome, mut_self: mut_self && !unit_ret, fresh: std::cell::Cell::new(0), binds: Default::default(), uninit: Default::default(),
                    ret_result, err_ty: err_ty_of(t.file).to_string(), group_vars: Default::default(), ns: t.lean_ns.to_string(), lib, elem, unit_ret,
                    try_scope: Default::default(), tries: Default::default(), some_tail: false, ind: Default::default(), assoc_err: assoc_err.replace("::", "."), ret_err,
-                   tail_call: Default::default(), top_last: std::cell::Cell::new(m.block.stmts.last().map_or(std::ptr::null(), |x| x as *const Stmt)) };
+                   tail_call: Default::default(), top_last: std::cell::Cell::new(m.block.stmts.last().map_or(std::ptr::null(), |x| x as *const Stmt)),
+                   assoc_out: String::new(), rng, rng_ty };
+    let cx = match assoc_out { Some(ty) => { let o = ty_name(ty, &cx)?; Ctx { assoc_out: o, ..cx } } None => cx };
+    if !cx.rng.is_empty() && (cx.outcome || mut_self) { return Err("random generator in an Outcome / `&mut self` function".into()); }
     let mut params = vec![];
     let mut pnames = vec![];
     for a in &m.sig.inputs {
@@ -1524,6 +1667,7 @@ fn translate_fn(t0: &Target, m: &ImplItemFn, assoc_err: &str) -> R<(String, Vec<
         ReturnType::Type(_, ty) => ty_name(ty, &cx)?,
     };
     let ret = if mut_self && !unit_ret { format!("{} × {}", self_lean, paren(&ret)) } else { ret };
+    let ret = if !cx.rng.is_empty() { format!("List Nat × {}", paren(&ret)) } else { ret };
     let ret = if outcome { format!("Outcome ({})", ret) } else { ret };
     // frobenius_map: one definition per literal arm
     if name == "frobenius_map" {
